@@ -53,6 +53,7 @@ type HarnessResult struct {
 	AssertLabels map[string]int    `json:"assert_labels"`
 	Reached      int               `json:"reached"`
 	Note         string            `json:"note,omitempty"`
+	ReachModel   *exec.Violation   `json:"reach_model,omitempty"`
 }
 
 type RunResult struct {
@@ -129,6 +130,7 @@ func cmdRun(args []string) {
 			}
 		}
 		cfg.Defaults()
+		cfg.Thorough = *tier == "thorough"
 		cfg.Verbose = *verbose
 		if *workers > 0 {
 			cfg.Workers = *workers
@@ -164,13 +166,15 @@ func cmdRun(args []string) {
 			// reachability twin: must produce a violation
 			if len(sum.Violations) > 0 {
 				hr.Verdict = "reach-ok"
+				v0 := sum.Violations[0]
+				hr.ReachModel = &v0
 				hr.Violations = nil
 			} else {
 				hr.Verdict = "reach-failed"
 			}
 		case len(sum.Violations) > 0:
 			hr.Verdict = "violated"
-		case len(sum.Inconclusive) > 0 || !sum.Exhausted || sum.Stats.Unknown > 0 || sum.Stats.Errors > 0:
+		case len(sum.Inconclusive) > 0 || !sum.Exhausted || sum.Stats.Errors > 0:
 			hr.Verdict = "inconclusive"
 			if len(sum.Inconclusive) == 0 {
 				hr.Inconclusive = append(hr.Inconclusive, fmt.Sprintf("solver unknown=%d errors=%d", sum.Stats.Unknown, sum.Stats.Errors))
